@@ -440,6 +440,14 @@ def rule_S3(ctx: Ctx, fam: str) -> None:
                     b = p.bind_args(c, t.ref)  # type: ignore[arg-type]
                     roots += [b[x] for x in rp[t.ref.qualname] if x in b]  # type: ignore[union-attr]
             effs = S.group_effects(f, c)
+            # arguments that change the message layout must be uniform too
+            for k in c.keywords:
+                if k.arg in ('symmetric', 'average', 'async_op', 'op'):
+                    lab = S.clabel(f, k.value)
+                    if isinstance(k.value, ast.Name) and k.value.id in f.params:
+                        continue
+                    ctx.check(lab <= {'pipe'}, 'S3', f, f'[{fam}] {k.arg}={norm(k.value)[:40]} is rank-uniform', norm(c)[:150] + f' [{k.arg}]',
+                              f'[{fam}] {norm(c.func)}: argument {k.arg}={norm(k.value)} is rank-dependent (label {sorted(lab)}): members of the group would pack / reduce the message differently', c)
             for a in roots:
                 if isinstance(a, ast.Name) and a.id in f.params and a.id in rp[f.qualname]:
                     continue  # checked at the callers
